@@ -585,20 +585,6 @@ def c_tref(I_, In, tr):
     return "(%s, %s)" % (cN(In.nsid(I_.namespaces[tr[1].ns])), cN(In.name(tr[1].name)))
 
 
-def c_value(In, v, opaque):
-    """opaque: set of id(value) that are written as dangling references"""
-    if id(v) in opaque:
-        return "VOpaque"
-    if v[0] == "leaf":
-        return "(VLeaf %s %s)" % (cN(v[1]), cstr(v[2]))
-    if v[0] == "nil":
-        return "VNil"
-    if v[0] == "struct":
-        return "(VStruct %s %s)" % (cN(In.name(v[1])), clist(
-            ["(%s, %s)" % (cN(In.name(fn)), c_value(In, x, opaque)) for fn, x in v[2]], "N * value"))
-    return "(VArr %s)" % clist([c_value(In, x, opaque) for x in v[1]], "value")
-
-
 def value_with_dangling(root, dangling):
     """the abstract value in which every dangling occurrence is opaque: values
     are rebuilt along the element tree because a shared content may be dangling
@@ -719,8 +705,10 @@ class Runner(object):
         r_in, s_in = run_impl(client, doc_in, In)
         r_out, s_out = run_impl(client, doc_out, In)
         val = value_with_dangling(root, outline.dangling)
+        # fuel only bounds recursion depth: Body > response > value (depth d) needs d + 3
+        fuel = max(FUEL, depth_of(root) + 8)
         term = "(mkC %s %s %s %s 0%%nat %s 0%%nat %s %s %s)" % (
-            c_schema(I, In), c_tref(I, In, I.ret), cnat(FUEL), h_in, h_out, r_in, r_out, c_value2(In, val))
+            c_schema(I, In), c_tref(I, In, I.ret), cnat(fuel), h_in, h_out, r_in, r_out, c_value2(In, val))
         nrefs = len(outline.href)
         shared = len(outline.href) - len(set(outline.href.values()))
         meta = {"wsdl": wsdl, "doc_in": doc_in, "doc_out": doc_out, "r_in": s_in, "r_out": s_out,
@@ -797,6 +785,24 @@ def payload_of(m):
             "reply_outlined": m["doc_out"].decode("utf-8"), "decoded_inline": m["r_in"],
             "decoded_outlined": m["r_out"],
             "how": "client.service.f(__inject={'reply': <reply>}) for both replies; the results must be equal"}
+
+
+def depth_of(e, memo=None):
+    """nesting depth of the element tree (shared contents counted once)"""
+    memo = {} if memo is None else memo
+    c = e.content
+    if id(c) not in memo:
+        memo[id(c)] = 1 + max([depth_of(k, memo) for k in c.kids] or [0])
+    return memo[id(c)]
+
+
+def expanded_size(e, memo=None):
+    """number of elements of the in-line document (a shared content is written once per use)"""
+    memo = {} if memo is None else memo
+    c = e.content
+    if id(c) not in memo:
+        memo[id(c)] = 1 + sum(expanded_size(k, memo) for k in c.kids)
+    return memo[id(c)]
 
 
 def occurrences(root):
@@ -942,8 +948,9 @@ def run(ck):
             G = ValueGen(rng, I, rng.choice([0.0, 0.3, 0.6]))
             root = Elem("return" if rng.random() < 0.8 else "fReturn",
                         G.content(I.ret, rng.choice([1, 2, 2, 3]), rng.choice([0.0, 0.5, 1.0, 1.0])))
-            if root.content.kind == "nil":
-                continue
+            if root.content.kind == "nil" or depth_of(root) > 60 or expanded_size(root) > 300:
+                ck.count("value-skipped-too-large")
+                continue        # shared sub-values can stack up: keep clear of Python's recursion limit
             variants(client, wsdl, I, root, (k, v), n_out)
 
     cases = R.cases
